@@ -444,6 +444,18 @@ Definition fetch_uuids (g : guards) (f : h5) (k : ekind) : res (list (N * ekind)
       | None => []
       end).
 
+(* Does fetch_or_create_root, when it rebuilds the root, first scan every flat entry's child containers (H5Reader.fetch_children)
+   and attach to the new root only the entries that are nobody's child?  The pinned source does not (it attaches every
+   entry met in identifier order); fixes/C19-root-rebuild-keeps-hierarchy.patch does.  Read off the extracted table so that
+   the model follows whichever source is checked. *)
+Definition nested_scan : bool :=
+  gkind_eqb (row_guard "Workspace.fetch_or_create_root" "ref:H5Reader.fetch_children" reader_rows) GHandled.
+Fixpoint nested_of (g : guards) (f : h5) (l : list (N * ekind)) : res (list (N * ekind)) :=
+  match l with
+  | [] => Ok []
+  | c :: r => do a <- fetch_children g f (U (fst c)) (snd c); do b <- nested_of g f r; Ok (a ++ b)
+  end.
+
 (* Workspace.open: fetch_project_attributes, then fetch_or_create_root *)
 Definition new_root : erec :=
   {| r_uid := Fresh [KRoot]; r_kind := RRoot; r_parent := None; r_attrs := []; r_type := None; r_pgs := []; r_dsets := Some [] |}.
@@ -464,7 +476,9 @@ Definition load (fuel : nat) (g : guards) (f : h5) : res tree :=
           if absorbs (g_ws_root g) then
             do gs <- fetch_uuids g f KGroup;
             do os <- fetch_uuids g f KObject;
-            match seq_load (fun reg c => load_ent fuel g f reg c (Some (r_uid new_root))) (gs ++ os) [r_uid new_root] with
+            do nest <- (if nested_scan then nested_of g f (gs ++ os) else Ok []);
+            let tops := filter (fun c : N * ekind => negb (existsb (fun d : N * ekind => N.eqb (fst d) (fst c)) nest)) (gs ++ os) in
+            match seq_load (fun reg c => load_ent fuel g f reg c (Some (r_uid new_root))) tops [r_uid new_root] with
             | Err e => Err e
             | Ok (sub, _) => Ok {| t_proj := n_attrs tn; t_root := r_uid new_root; t_ents := new_root :: sub |}
             end
@@ -867,6 +881,14 @@ Definition thm_instance_okb (fuel : nat) (s : fspec) (t0 : tree) (x : item) : bo
   | Ok t => agree_outsideb s (negb (is_proj_attr x)) (described_by s x) t t0
   end.
 
+Definition renorm_parent (s : fspec) (r : erec) : erec :=
+  match r_parent r with
+  | Some (Fresh [KRoot]) =>
+      {| r_uid := r_uid r; r_kind := r_kind r; r_parent := Some (U (et_uid (fs_root s))); r_attrs := r_attrs r;
+         r_type := r_type r; r_pgs := r_pgs r; r_dsets := r_dsets r |}
+  | _ => r
+  end.
+
 (* "the model, run on this deletion, yields this observation": error kind, set of lost entities, number of entities with
    a new identifier; the observed altered entities are among those the model alters (an attribute equal to its class
    default leaves no observable difference) and the project attributes change only if the model says so *)
@@ -878,7 +900,11 @@ Definition check_obs (fuel : nat) (s : fspec) (t0 : tree) (x : item) (oerr : opt
   | Ok t, None =>
       let ml := lost_of s t0 t in
       subsetN ml lost && subsetN lost ml
-      && subsetN alt (altered_of s t0 t)
+      && (if is_root_link x
+          then (* the root is rebuilt: "child of the root" is compared as such, and the altered set exactly *)
+            let t' := {| t_proj := t_proj t; t_root := t_root t; t_ents := map (renorm_parent s) (t_ents t) |} in
+            subsetN alt (altered_of s t0 t') && subsetN (altered_of s t0 t') alt
+          else subsetN alt (altered_of s t0 t))
       && Nat.eqb (fresh_of t) fresh
       && (negb proj || negb (amap_eqb (t_proj t) (t_proj t0)))
   | _, _ => false
